@@ -95,7 +95,14 @@ P["C08"] = dict(
     claimed=True,
     technique="static analysis: per-iteration typestate (written x counted) on the grid operators' loops",
     decides=["R-COUNT-OR-NAN on gridshift/deformation/deflection: a point that gets no grid value is overwritten "
-             "with NaN and not counted; every other path writes and counts"],
+             "with NaN and not counted; every other path writes and counts",
+             "R-TWO-PASS: all three grid searches (grids_at, deformation fwd/inv) try margin 0 then 0.5 in the outer "
+             "loop and the grids in list order in the inner loop; the first hit ends the search",
+             "R-GRID-SIGN: gridshift subtracts geoid heights / adds datum shifts forward and does the opposite inverse; "
+             "deformation integrates the negated velocity forward, the velocity inverse, over the same position and duration",
+             "R-CONTAINS-AXES: the containment margin of each axis is computed from that axis' own cell size",
+             "R-MULTIMAP: the NTv2 parent->children table is only ever extended",
+             "R-GRID-INVARIANT: grids have at least 2 rows and 2 columns"],
     not_decided=["bilinearity, continuity, NTv2 sub-grid selection values", "unit conventions"],
     level="Decides the 'outside all grids is failed' clause as a path property; interpolation numerics are not decided.",
     design_ref="DESIGN.md section 3, C08",
@@ -185,7 +192,9 @@ P["C15"] = dict(
              "clamps and subtractions of BaseGrid::at)", "R-UNWRAP-GRID: every unwrap in grid::* is a constant-length "
              "slice conversion, a constant-key lookup guaranteed by all constructors, or a reviewed site",
              "R-ALLOC-BOUND: file-derived allocation sizes are compared with the buffer length first",
-             "R-LOOP-RANK: decoder and lookup loops terminate", "T-NTV2-OFFSETS: record offsets = 16k+8 in format order"],
+             "R-LOOP-RANK: decoder and lookup loops terminate", "T-NTV2-OFFSETS: record offsets = 16k+8 in format order",
+             "R-ENDIAN-ARMS: each getter pairs the big-endian flag with from_be_bytes and the other arm with from_le_bytes",
+             "R-MULTIMAP: sub-grids sharing a parent are all kept"],
     not_decided=["faithfulness of decoded values", "endianness handling", "binary/ASCII agreement",
                  "arithmetic overflow of header-derived products", "index arithmetic of BaseGrid::at beyond the row/col invariants"],
     level="Decides the memory-safety style clauses (no out-of-bounds read, no division by zero, no unguarded unwrap, "
